@@ -57,7 +57,10 @@ func (g *clearGen) genField(field *protogen.Field) {
 func (g *clearGen) genNullable(field *protogen.Field) {
 	switch {
 	case field.Desc.ContainingOneof() != nil:
+		// only the member that is set may be cleared: clearing another member of the oneof is a no-op
+		g.P("if _, ok := x.", field.Oneof.GoName, ".(*", field.GoIdent, "); ok {")
 		g.P("x.", field.Oneof.GoName, " = nil")
+		g.P("}")
 	case field.Desc.IsMap(), field.Desc.IsList(), field.Desc.Kind() == protoreflect.BytesKind:
 		g.P("x.", field.GoName, " = nil")
 	case field.Desc.Kind() == protoreflect.MessageKind:
